@@ -90,12 +90,15 @@ structure Mods where
   override_ : Bool
   deriving Repr, Inhabited
 
+mutual
 inductive Member where
   | field (m : Mods) (static_ : Bool) (name : String) (opt : Bool) (definite : Bool) (ty : Option Ty) (init : Expr)
+  /-- `locals` are the statements of the method body before its `return` (nested functions and
+      classes — with their own static syntax — may appear there) -/
   | method (m : Mods) (static_ : Bool) (name : String) (tps : List TParam) (ps : List Param) (ret : Ret)
-      (overloads : List (List Param × Ret)) (body : Expr)
+      (overloads : List (List Param × Ret)) (locals : List Stmt) (body : Expr)
   | indexSig (key : String) (kty vty : Ty)    -- [k: string]: T     (no run-time meaning)
-  deriving Repr, Inhabited
+  | declareField (name : String) (ty : Ty)    -- declare x: T;      (no run-time meaning)
 
 inductive Stmt where
   | decl (kw : String) (x : String) (definite : Bool) (ty : Option Ty) (init : Expr)
@@ -108,7 +111,10 @@ inductive Stmt where
   | iface (name : String) (tps : List TParam) (exts : List Ty) (members : List (String × Bool × Ty))
   | declareVar (name : String) (t : Ty)       -- declare const x: T;
   | declareFn (name : String) (ps : List Param) (ret : Ret)
-  deriving Repr, Inhabited
+end
+
+instance : Inhabited Stmt := ⟨.expr (.num 0)⟩
+instance : Inhabited Member := ⟨.indexSig "k" (.kw "string") (.kw "any")⟩
 
 abbrev Prog := List Stmt
 
@@ -146,16 +152,22 @@ end
 
 def noMods : Mods := { access := none, readonly := false, override_ := false }
 
+mutual
 def stripMember : Member → Option Member
   | .field _ st name _ _ _ init => some (.field noMods st name false false none (stripE init))
-  | .method _ st name _ ps _ _ body => some (.method noMods st name [] (ps.map stripParam) .none [] (stripE body))
+  | .method _ st name _ ps _ _ locals body =>
+    some (.method noMods st name [] (ps.map stripParam) .none [] (stripSs locals) (stripE body))
   | .indexSig _ _ _ => none
-
-mutual
+  | .declareField _ _ => none
+def stripMs : List Member → List Member
+  | [] => []
+  | m :: ms => match stripMember m with
+    | some m' => m' :: stripMs ms
+    | none => stripMs ms
 def stripS : Stmt → Option Stmt
   | .decl kw x _ _ init => some (.decl kw x false none (stripE init))
   | .fn name _ ps _ _ body result => some (.fn name [] (ps.map stripParam) .none [] (stripSs body) (stripE result))
-  | .cls name _ _ members => some (.cls name [] [] (members.filterMap stripMember))
+  | .cls name _ _ members => some (.cls name [] [] (stripMs members))
   | .expr e => some (.expr (stripE e))
   | .ifS c thn els => some (.ifS (stripE c) (stripSs thn) (stripSs els))
   | .typeAlias _ _ _ => none
@@ -209,18 +221,21 @@ end
 
 def plainMods (m : Mods) : Bool := m.access.isNone && !m.readonly && !m.override_
 
+mutual
 def plainMember : Member → Bool
   | .field m _ _ opt definite ty init => plainMods m && !opt && !definite && ty.isNone && plainE init
-  | .method m _ _ tps ps ret overloads body =>
-    plainMods m && tps.isEmpty && ps.all plainParam && plainRet ret && overloads.isEmpty && plainE body
+  | .method m _ _ tps ps ret overloads locals body =>
+    plainMods m && tps.isEmpty && ps.all plainParam && plainRet ret && overloads.isEmpty && plainSs locals && plainE body
   | .indexSig _ _ _ => false
-
-mutual
+  | .declareField _ _ => false
+def plainMs : List Member → Bool
+  | [] => true
+  | m :: ms => plainMember m && plainMs ms
 def plainS : Stmt → Bool
   | .decl _ _ definite ty init => !definite && ty.isNone && plainE init
   | .fn _ tps ps ret overloads body result =>
     tps.isEmpty && ps.all plainParam && plainRet ret && overloads.isEmpty && plainSs body && plainE result
-  | .cls _ tps impls members => tps.isEmpty && impls.isEmpty && members.all plainMember
+  | .cls _ tps impls members => tps.isEmpty && impls.isEmpty && plainMs members
   | .expr e => plainE e
   | .ifS c thn els => plainE c && plainSs thn && plainSs els
   | .typeAlias _ _ _ => false
@@ -331,18 +346,21 @@ def renderMods (m : Mods) (st : Bool) : String :=
   (match m.access with | some a => a ++ " " | none => "") ++ (if st then "static " else "")
     ++ (if m.override_ then "override " else "") ++ (if m.readonly then "readonly " else "")
 
+mutual
 def renderMember : Member → String
   | .field m st name opt definite ty init =>
     renderMods m st ++ name ++ (if opt then "?" else if definite then "!" else "")
       ++ (match ty with | some t => ": " ++ renderTy t | none => "") ++ " = " ++ renderE init ++ ";"
-  | .method m st name tps ps ret overloads body =>
+  | .method m st name tps ps ret overloads locals body =>
     sepBy " " (overloads.map (fun o => renderMods m st ++ name ++ renderParams o.1 ++ renderRet o.2 ++ ";"))
       ++ (if overloads.isEmpty then "" else " ")
       ++ renderMods m st ++ name ++ renderTParams tps ++ renderParams ps ++ renderRet ret
-      ++ " { return " ++ renderE body ++ "; }"
+      ++ " { " ++ renderSs locals ++ "return " ++ renderE body ++ "; }"
   | .indexSig k kt vt => "[" ++ k ++ ": " ++ renderTy kt ++ "]: " ++ renderTy vt ++ ";"
-
-mutual
+  | .declareField name ty => "declare " ++ name ++ ": " ++ renderTy ty ++ ";"
+def renderMembers : List Member → List String
+  | [] => []
+  | m :: ms => renderMember m :: renderMembers ms
 def renderS : Stmt → String
   | .decl kw x definite ty init =>
     kw ++ " " ++ x ++ (if definite then "!" else "") ++ (match ty with | some t => ": " ++ renderTy t | none => "")
@@ -355,7 +373,7 @@ def renderS : Stmt → String
   | .cls name tps impls members =>
     "class " ++ name ++ renderTParams tps
       ++ (if impls.isEmpty then "" else " implements " ++ sepBy ", " (renderTys impls))
-      ++ " {\n" ++ sepBy "\n" (members.map renderMember) ++ "\n}"
+      ++ " {\n" ++ sepBy "\n" (renderMembers members) ++ "\n}"
   | .expr e => renderE e ++ ";"
   | .ifS c thn els => "if (" ++ renderE c ++ ") {\n" ++ renderSs thn ++ "} else {\n" ++ renderSs els ++ "}"
   | .typeAlias name tps t => "type " ++ name ++ renderTParams tps ++ " = " ++ renderTy t ++ ";"
